@@ -613,22 +613,154 @@ func genSyncEpoch0(r *Rand) Input {
 	return g.finish("sync-epoch-0")
 }
 
+// syncBoundary: start-ups and restarts in each of the last 8 epochs of a sync committee period,
+// after which the clock runs, epoch by epoch with the ticker, through the period boundary: every
+// slot of the NEXT period must have its preparation job before it comes up, whichever of the
+// start-up code, the epoch ticker (period - 5) and the fork-epoch handler was responsible for it.
+// Variants: fork at 0 / at an earlier epoch (aligned or not); the Altair fork inside the last 5
+// epochs of a period with the process started before the fork (fork-epoch handler); restarts on the
+// way; changed views of the node; a skipped tick (the claim is then void).
+func genSyncBoundary(r *Rand) Input {
+	g := newHist(r)
+	h := g.h
+	h.SPE = uint64(r.Range(2, 3))
+	if r.Chance(1, 6) {
+		h.SPE = 4
+	}
+	h.Period = uint64([]int{5, 6, 8, 8, 8, 10}[r.Intn(6)])
+	h.HaveAgg = true
+	P := h.Period
+	pn := uint64(r.Range(1, 3)) // the period the process starts in
+	boundary := (pn + 1) * P    // first epoch of the next period
+	// k epochs before the boundary: each of the last 8, the edges of the preparation window more often
+	var k uint64
+	switch x := r.Intn(8); {
+	case x < 2:
+		k = 5
+	case x < 6:
+		k = uint64(r.Range(1, 4))
+	default:
+		k = uint64(r.Range(6, 8))
+	}
+	if k > P {
+		k = P
+	}
+	e0 := boundary - k
+	fork := uint64(0)
+	forkHandler := r.Chance(1, 4)
+	switch {
+	case forkHandler:
+		// the fork epoch lies inside the last 5 epochs of the period (each distance equally often) and
+		// the process starts one or two epochs before it, so that only the fork-epoch handler (and, at
+		// distance 5, the ticker's own test in the same tick) can set the next period up
+		dist := uint64(r.Range(1, 5))
+		k = dist + uint64(r.Range(1, 2))
+		e0 = boundary - k
+		fork = boundary - dist
+		g.tag("fork-near-boundary")
+	case r.Chance(1, 3):
+		fork = uint64(r.Range(1, int(e0))) // some earlier epoch, aligned or not
+		g.tag("altair-fork-epoch-nonzero")
+	}
+	h.SpecAltair = &fork
+	g.tag("start-" + []string{"", "1", "2", "3", "4", "5", "6", "7", "8"}[k] + "-before-boundary")
+	syncEnv := func(ce, cur uint64) *Env {
+		e := g.env(ce, ce+1, cur, false)
+		e.Vals = true
+		off := g.version * 10
+		for p := uint64(0); p <= pn+2; p++ {
+			vs := []uint64{off + uint64(r.Range(1, 3))}
+			if r.Chance(1, 3) {
+				vs = append(vs, off+uint64(r.Range(1, 3)))
+			}
+			if r.Chance(1, 25) {
+				vs = nil // the node names nobody for this period: nothing to schedule, nothing claimed
+				g.tag("no-sync-duties")
+			}
+			e.Sync = append(e.Sync, PeriodSync{Period: p, Vals: vs})
+		}
+		return e
+	}
+	ce := e0
+	cur := ce*h.SPE + uint64(r.Intn(int(h.SPE)))
+	g.add(Op{K: "advance", Slot: cur})
+	g.add(Op{K: "setenv", Env: syncEnv(ce, cur)})
+	g.add(Op{K: "start"})
+	prevRoot, curRoot, nextRoot := uint64(1), uint64(11), uint64(100)
+	last := boundary + uint64(r.Range(0, 1))
+	for ce < last {
+		// the eve of the next epoch (at the boundary: the first slot of the next period's window)
+		if r.Chance(1, 2) || ce+1 == boundary {
+			if eve := (ce+1)*h.SPE - 1; eve > cur {
+				cur = eve
+				g.add(Op{K: "advance", Slot: cur})
+				if eve >= 2 && ce+1 == boundary && r.Chance(1, 2) {
+					g.add(Op{K: "fire", Job: "sync", Num: cur})
+				}
+			}
+		}
+		ce++
+		cur = ce * h.SPE
+		g.add(Op{K: "advance", Slot: cur})
+		prevRoot, curRoot = curRoot, nextRoot
+		nextRoot++
+		if r.Chance(1, 14) {
+			g.tag("tick-skipped")
+		} else {
+			g.add(Op{K: "tick"})
+			if ce == fork {
+				g.tag("tick-at-altair")
+			}
+		}
+		switch r.Intn(10) {
+		case 0:
+			g.add(Op{K: "setenv", Env: syncEnv(ce, cur)})
+		case 1, 2:
+			g.add(Op{K: "head", Slot: cur, Prev: prevRoot, Cur: curRoot})
+		case 3:
+			g.tag("cur-root-changed")
+			g.add(Op{K: "head", Slot: cur, Prev: prevRoot, Cur: curRoot})
+			cur++
+			g.add(Op{K: "advance", Slot: cur})
+			g.add(Op{K: "setenv", Env: syncEnv(ce, cur)})
+			curRoot = nextRoot
+			nextRoot++
+			g.add(Op{K: "head", Slot: cur, Prev: prevRoot, Cur: curRoot})
+		case 4:
+			if ce < boundary {
+				g.tag("restart")
+				cur += uint64(r.Intn(int(h.SPE)))
+				g.add(Op{K: "advance", Slot: cur})
+				g.add(Op{K: "start"})
+			}
+		}
+	}
+	// a few slots into the new period
+	for i, n := 0, r.Range(1, 2); i < n; i++ {
+		cur++
+		g.add(Op{K: "advance", Slot: cur})
+	}
+	return g.finish("sync-boundary")
+}
+
 func gen(r *Rand, i int) Input {
 	switch k := r.Intn(100); {
-	case k < 30:
+	case k < 26:
 		return genTime(r)
-	case k < 32:
+	case k < 28:
 		return genSecs(r)
-	case k < 37:
+	case k < 33:
 		return genMerge(r)
-	case k < 60:
+	case k < 54:
 		return genDirect(r)
-	case k < 82:
+	case k < 76:
 		return genLifecycle(r)
-	case k < 91:
+	case k < 85:
 		return genReorg(r)
-	case k < 94:
+	case k < 88:
 		return genSyncEpoch0(r)
+	case k < 94:
+		return genSyncBoundary(r)
 	default:
 		return genAltair(r)
 	}
